@@ -66,7 +66,7 @@ void frequent_items_sketch<T, W, H, E, A>::update(T&& item, W weight) {
 
 template<typename T, typename W, typename H, typename E, typename A>
 void frequent_items_sketch<T, W, H, E, A>::merge(const frequent_items_sketch& other) {
-  if (other.is_empty()) return;
+  if (other.get_total_weight() == 0) return; // a sketch whose items were all purged still carries weight and offset
   const W merged_total_weight = total_weight + other.get_total_weight(); // for correction at the end
   for (auto it: other.map) {
     update(it.first, it.second);
@@ -77,7 +77,7 @@ void frequent_items_sketch<T, W, H, E, A>::merge(const frequent_items_sketch& ot
 
 template<typename T, typename W, typename H, typename E, typename A>
 void frequent_items_sketch<T, W, H, E, A>::merge(frequent_items_sketch&& other) {
-  if (other.is_empty()) return;
+  if (other.get_total_weight() == 0) return; // a sketch whose items were all purged still carries weight and offset
   const W merged_total_weight = total_weight + other.get_total_weight(); // for correction at the end
   for (auto it: other.map) {
     update(std::move(it.first), it.second);
